@@ -16,6 +16,24 @@ import (
 // X13: an index that ranges over one slice is used on another only under a length guard
 // ---------------------------------------------------------------------------------------
 
+type x13Verdict struct {
+	ok   bool
+	why  string
+	over string
+}
+
+var x13Cache = map[token.Pos]x13Verdict{}
+
+// x13Verdicts runs the X13 analysis silently (on a scratch context) and returns its verdicts
+// keyed by the position of the `[` of the index expression.
+func x13Verdicts(c *Ctx) map[token.Pos]x13Verdict {
+	if len(x13Cache) == 0 {
+		sc := newCtx(c.Prop, c.Tier, c.L, c.Verif)
+		ruleX13(sc)
+	}
+	return x13Cache
+}
+
 func ruleX13(c *Ctx) {
 	c.doc("X13", "when the index variable of a loop (or of an indexed callback such as lo.EveryBy) over one slice is used to index a different slice, an earlier statement of the function rejects the case where the second slice is shorter (len(A) != len(B) → return, B made with len(A), …): otherwise an input with fewer operands is an index-out-of-range panic")
 	n := 0
@@ -84,6 +102,7 @@ func ruleX13(c *Ctx) {
 				for _, l := range loops {
 					aTxt := types.ExprString(l.over)
 					seen := map[string]bool{}
+					seenAt := map[string]token.Pos{}
 					ast.Inspect(l.body, func(x ast.Node) bool {
 						ie, ok := x.(*ast.IndexExpr)
 						if !ok {
@@ -98,9 +117,17 @@ func ruleX13(c *Ctx) {
 							return true
 						}
 						bTxt := types.ExprString(ie.X)
-						if bTxt == aTxt || seen[bTxt] {
+						if bTxt == aTxt {
+							x13Cache[ie.Lbrack] = x13Verdict{true, "the loop runs over this very slice", aTxt}
 							return true
 						}
+						if seen[bTxt] {
+							if v, ok := x13Cache[seenAt[bTxt]]; ok {
+								x13Cache[ie.Lbrack] = v
+							}
+							return true
+						}
+						seenAt[bTxt] = ie.Lbrack
 						seen[bTxt] = true
 						per++
 						n++
@@ -109,6 +136,7 @@ func ruleX13(c *Ctx) {
 						if !ok {
 							why, ok = lengthGuarded(p, fd, l.pos, l.over, ie.X)
 						}
+						x13Cache[ie.Lbrack] = x13Verdict{ok, why, aTxt}
 						if ok {
 							c.ok("X13", key, c.L.Pos(ie.Pos()), why)
 						} else {
